@@ -40,9 +40,6 @@ def verdict (s : String) : Option KhVerdict :=
   if s == "match" then some .matches else if s == "mismatch" then some .mismatch
   else if s == "unknown" then some .unknown else if s == "revoked" then some .revoked else none
 
-/-- domain of the argv theorems: the host is not read as an option by ssh -/
-def hostOk (h : Bytes) : Bool := !isOptTok h && h != b!"--"
-
 end C14
 open C14
 
